@@ -51,7 +51,7 @@ Lemma apply_un_sound op v :
   end.
 Proof.
   intros Wv C. destruct v as [a|a|a|a|a|k|]; try discriminate Wv; try (destruct k; try discriminate Wv);
-  destruct op; try discriminate C; cbn; try (split; reflexivity).
+  destruct op; try discriminate C; cbn; crush_res; cbn; try (split; reflexivity); try reflexivity.
 Qed.
 
 (* the static tables only look at a kind through what `fits` preserves: finite sweeps over all kinds and operators *)
